@@ -73,7 +73,11 @@ static const hawk_ooch_t* binop_str[][2] =
 	{ HAWK_T("%"),  HAWK_T("%") },
 	{ HAWK_T("**"), HAWK_T("**") }, /* exponentation, also ^ */
 
-	{ HAWK_T(" "),  HAWK_T("%%") }, /* take note of this entry */
+	/* concatenation by blanks can't be read back reliably. the right-hand
+	 * side may begin with a token that continues the left-hand side or that
+	 * doesn't start a concatenation. e.g. a (-1), a (++b), a (/x/), a (@argc).
+	 * use the explicit operator, which is accepted regardless of HAWK_BLANKCONCAT */
+	{ HAWK_T("%%"), HAWK_T("%%") },
 	{ HAWK_T("~"),  HAWK_T("~") },
 	{ HAWK_T("!~"), HAWK_T("!~") }
 };
